@@ -97,6 +97,12 @@ pub fn space(thorough: bool) -> Vec<Prog> {
         out.push(build(vec![s0.clone(), s1.clone()], vec![("vs_a".into(), vec![Some(0)]), ("vs_b".into(), vec![Some(0)])], format!("entry|shared-struct|{i}")));
         out.push(build(vec![s0.clone(), s1.clone()], vec![("vs_a".into(), vec![Some(0)]), ("vs_b".into(), vec![Some(1)])], format!("entry|two-entries|{i}")));
         out.push(build(vec![s0.clone(), s1.clone()], vec![("vs_a".into(), vec![Some(1), Some(0)]), ("vs_b".into(), vec![Some(0)]), ("vs_c".into(), vec![])], format!("entry|three-entries|{i}")));
+        // a struct parameter made only of builtins still counts: empty attribute table, its own buffer slot
+        let bo = StructDef { name: "OnlyBuiltins".into(), members: vec![Member::builtin("vi", Ty::Scalar(Scalar::U32), "vertex_index"), Member::builtin("ii", Ty::Scalar(Scalar::U32), "instance_index")] };
+        let s0nb = StructDef { name: "Zeta".into(), members: vec![Member::located("pos", a.clone(), 0), Member::located("extra", Ty::Vec(2, f), 4)] };
+        out.push(build(vec![s0nb.clone(), bo.clone(), s1.clone()], vec![("vs_main".into(), vec![Some(0), Some(1), Some(2)])], format!("entry|builtin-only-struct-middle|{i}")));
+        out.push(build(vec![s0nb.clone(), bo.clone(), s1.clone()], vec![("vs_main".into(), vec![Some(1), Some(0)])], format!("entry|builtin-only-struct-first|{i}")));
+        out.push(build(vec![s0nb.clone(), bo.clone(), s1.clone()], vec![("vs_main".into(), vec![Some(1)])], format!("entry|builtin-only-struct-alone|{i}")));
         // two entries whose structs reuse the same locations with different types
         let o0 = StructDef { name: "MeshVertex".into(), members: vec![Member::located("position", a.clone(), 0), Member::located("uv", Ty::Vec(2, f), 1)] };
         let o1 = StructDef { name: "SpriteVertex".into(), members: vec![Member::located("cell", b.clone(), 0), Member::located("layer", Ty::Vec(4, Scalar::U32), 1)] };
